@@ -42,12 +42,17 @@ type phase struct {
 	// number of spec updates that only touch ANOTHER schema of the cluster, applied before this phase (they must not
 	// start a new window for the observed schema)
 	UnrelatedSyncs int `json:"unrelated_syncs"`
+	// "exempt" / "mif": before this phase the schema is changed in place to that type and back to the token bucket
+	// (with the new values, if any): a fresh bucket, so a new window starts
+	ViaType string `json:"via_type,omitempty"`
 }
 
 type plan struct {
-	QPS    int32   `json:"qps"`
-	Burst  int32   `json:"burst"`
-	Phases []phase `json:"phases"`
+	QPS   int32 `json:"qps"`
+	Burst int32 `json:"burst"`
+	// "exempt" / "mif": the schema first exists with that type and is changed in place to the token bucket
+	InitType string  `json:"init_type,omitempty"`
+	Phases   []phase `json:"phases"`
 }
 
 type call struct {
@@ -75,6 +80,7 @@ func genQB(t *rapid.T, label string) (int32, int32) {
 func genPlan(t *rapid.T) plan {
 	p := plan{}
 	p.QPS, p.Burst = genQB(t, "init")
+	p.InitType = rapid.SampledFrom([]string{"", "", "", "exempt", "mif"}).Draw(t, "initType")
 	n := rapid.IntRange(1, 5).Draw(t, "phases")
 	for i := 0; i < n; i++ {
 		ph := phase{}
@@ -87,9 +93,23 @@ func genPlan(t *rapid.T) plan {
 		if i > 0 && rapid.IntRange(0, 2).Draw(t, fmt.Sprintf("phase[%d].unrelated", i)) == 0 {
 			ph.UnrelatedSyncs = rapid.IntRange(1, 3).Draw(t, fmt.Sprintf("phase[%d].unrelatedSyncs", i))
 		}
+		if i > 0 && rapid.IntRange(0, 5).Draw(t, fmt.Sprintf("phase[%d].via", i)) == 0 {
+			ph.ViaType = rapid.SampledFrom([]string{"exempt", "mif"}).Draw(t, fmt.Sprintf("phase[%d].viaType", i))
+		}
 		p.Phases = append(p.Phases, ph)
 	}
 	return p
+}
+
+// schemaTyped is schemaGen with the observed schema "tb" of another type.
+func schemaTyped(typ string, gen int32) proxyv1alpha1.FlowControl {
+	fc := schemaGen(1, 1, gen)
+	if typ == "exempt" {
+		fc.Schemas[0].FlowControlSchemaConfiguration = proxyv1alpha1.FlowControlSchemaConfiguration{Exempt: &proxyv1alpha1.ExemptFlowControlSchema{}}
+	} else {
+		fc.Schemas[0].FlowControlSchemaConfiguration = proxyv1alpha1.FlowControlSchemaConfiguration{MaxRequestsInflight: &proxyv1alpha1.MaxRequestsInflightFlowControlSchema{Max: 3}}
+	}
+	return fc
 }
 
 // schema builds a fresh spec object (new pointers, as every informer delivery does): the observed token bucket "tb",
@@ -123,6 +143,9 @@ func execute(p plan) []window {
 	defer cancel()
 	ul := flowcontrols.NewUpstreamLimiter(ctx, "c1", "", nil)
 	defer ul.Sync(proxyv1alpha1.FlowControl{})
+	if p.InitType != "" {
+		ul.Sync(schemaTyped(p.InitType, 0))
+	}
 	start := time.Now()
 	ul.Sync(schema(p.QPS, p.Burst))
 	var out []window
@@ -134,7 +157,17 @@ func execute(p plan) []window {
 			gen++
 			ul.Sync(schemaGen(cur.qps, cur.burst, gen)) // only the other schemas change: no new window for "tb"
 		}
-		if ph.NewQPS > 0 && (ph.NewQPS != cur.qps || ph.NewBurst != cur.burst) {
+		if ph.ViaType != "" {
+			out = append(out, cur)
+			ul.Sync(schemaTyped(ph.ViaType, gen))
+			nq, nb := cur.qps, cur.burst
+			if ph.NewQPS > 0 {
+				nq, nb = ph.NewQPS, ph.NewBurst
+			}
+			ul.Sync(schemaGen(nq, nb, gen))
+			cur = window{qps: nq, burst: nb}
+			lastAfter = -1
+		} else if ph.NewQPS > 0 && (ph.NewQPS != cur.qps || ph.NewBurst != cur.burst) {
 			out = append(out, cur)
 			ul.Sync(schemaGen(ph.NewQPS, ph.NewBurst, gen))
 			cur = window{qps: ph.NewQPS, burst: ph.NewBurst}
@@ -244,7 +277,7 @@ func saveReplay(p plan, msg string) {
 }
 
 func TestPropTokenBucketBounds(t *testing.T) {
-	sub := stats.NewSub("token-bucket-plans", "rapid: (qps 1..5000, burst >= qps) and a plan of 1-5 phases (n calls from 1-8 goroutines, pause 0-40 ms, optional reconfiguration to a new (qps, burst), optional 1-3 spec updates that only change OTHER schemas of the cluster and must not start a new window); executed against the real limiter with timestamps around every call; oracle: for every window [before_i, after_j] inside one configuration, #admitted calls completely inside <= burst + qps*T; after a measured idle time t the first min(burst, floor(qps*t)) sequential calls are admitted; non-trivial = the plan has >=1 pause and >=1 refused call; distinct by FNV-64 of the plan")
+	sub := stats.NewSub("token-bucket-plans", "rapid: (qps 1..5000, burst >= qps) and a plan of 1-5 phases (n calls from 1-8 goroutines, pause 0-40 ms, optional reconfiguration to a new (qps, burst), optional 1-3 spec updates that only change OTHER schemas of the cluster and must not start a new window, optionally the schema first exists as exempt / max-in-flight and is changed in place to the token bucket, or is changed to such a type and back between phases); executed against the real limiter with timestamps around every call; oracle: for every window [before_i, after_j] inside one configuration, #admitted calls completely inside <= burst + qps*T; after a measured idle time t the first min(burst, floor(qps*t)) sequential calls are admitted; non-trivial = the plan has >=1 pause and >=1 refused call; distinct by FNV-64 of the plan")
 	stats.Check(t, stats.N(300, 1500), func(t *rapid.T) {
 		p := genPlan(t)
 		ws := execute(p)
